@@ -1,5 +1,8 @@
-fn dispatch(_ctx: &vlib::common::Ctx) -> Option<i32> {
-    None
+fn dispatch(ctx: &vlib::common::Ctx) -> Option<i32> {
+    // Engines that need jj-cli as a library live here; everything else
+    // (including the CLI-driver engines, which only need the `jj` binary that
+    // is built together with this one) is served by vlib.
+    vlib::dispatch(ctx)
 }
 
 fn main() {
